@@ -19,10 +19,11 @@ PROPS['C13'] = dict(
             'thorough': 'L = 0..10'},
     outside='strings longer than the bound; the claim "result parses to an equal tree" is decided through the reference minifier, not by running the parser',
     stubs=[], assumptions=['CBMC memory model (byte-precise objects); strlen/strcmp/memcpy are CBMC built-in models'])
-for L in range(0, 11):
-    Q('C13', 'minify.L%d' % L, 'harness/c13_minify.c', defs=['-DL=%d' % L], unwind=L + 3,
-      tiers=('quick', 'thorough') if L <= 7 else ('thorough',), cost=L,
+for L in range(0, 9):
+    Q('C13', 'minify.L%d' % L, 'harness/c13_minify.c', defs=['-DL=%d' % L, '-DVF_ONLY=13'], unwind=L + 3,
+      tiers=('quick', 'thorough') if L <= 6 else ('thorough',), cost=L, timeout=3000,
       functions=['cJSON_Minify', 'minify_string', 'skip_oneline_comment', 'skip_multiline_comment'])
+Q('C20', 'minify.L4', 'harness/c13_minify.c', defs=['-DL=4', '-DVF_ONLY=20'], unwind=7, cost=4, functions=['cJSON_Minify'])
 
 # ------------------------------------------------------------------ parse units (C01, C02, C03, C10)
 PARSE_PROPS = ('C01', 'C02', 'C03', 'C10')
@@ -70,7 +71,7 @@ for M in (1, 2, 3, 4, 5, 6, 7, 8):
     for E in (0, 1, 2, 3):
         quick = True
         tiers = ('quick', 'thorough') if quick else ('thorough',)
-        QP('top.E%d.M%d' % (E, M), 'harness/parse_top.c', props=('C01', 'C02', 'C03', 'C08', 'C10'), defs=['-DM=%d' % M, '-DENTRY=%d' % E], unwind=M + 3, tiers=tiers, cost=M,
+        QP('top.E%d.M%d' % (E, M), 'harness/parse_top.c', props=('C01', 'C02', 'C03', 'C08', 'C10') + (('C20',) if M == 5 else ()), defs=['-DM=%d' % M, '-DENTRY=%d' % E], unwind=M + 3, tiers=tiers, cost=M,
            stub=['parse_value'], functions=TOPFN, unwindset=['cJSON_Delete.0:2', 'cJSON_Delete:2'])
 for M in (2, 4):
     for E in (0, 2):
@@ -99,10 +100,10 @@ QM(('C05', 'C09'), 'pleaf', 'harness/print_leaf.c', unwind=8, unwindset=ML(26), 
    functions=['print_value', 'print_string', 'ensure'])
 ENTFN = ['cJSON_PrintPreallocated', 'cJSON_Print', 'cJSON_PrintUnformatted', 'cJSON_PrintBuffered', 'print', 'ensure', 'update_offset', 'cJSON_InitHooks', 'cJSON_free']
 for n in (0, 1, 2, 3, 6, 8, 13):
-    QM(('C09', 'C05'), 'pentry.prealloc.N%d' % n, 'harness/print_entry.c', defs=['-DAPI=0', '-DN=%d' % n], unwind=10, unwindset=ML(16), stub=['print_value'], cost=2, functions=ENTFN)
+    QM(('C09', 'C05') + (('C20',) if n == 8 else ()), 'pentry.prealloc.N%d' % n, 'harness/print_entry.c', defs=['-DAPI=0', '-DN=%d' % n], unwind=10, unwindset=ML(16), stub=['print_value'], cost=2, functions=ENTFN)
 for api in (1, 2):
     for hk in (0, 1, 2, 3):
-        QM(('C04', 'C05', 'C07', 'C08', 'C14'), 'pentry.api%d.hooks%d' % (api, hk), 'harness/print_entry.c', defs=['-DAPI=%d' % api, '-DHOOKS=%d' % hk], unwind=10, unwindset=ML(16) + ['vf_memcpy.0:66'], stub=['print_value'],
+        QM(('C04', 'C05', 'C07', 'C08', 'C14', 'C20'), 'pentry.api%d.hooks%d' % (api, hk), 'harness/print_entry.c', defs=['-DAPI=%d' % api, '-DHOOKS=%d' % hk], unwind=10, unwindset=ML(16) + ['vf_memcpy.0:66'], stub=['print_value'],
            cost=10, functions=ENTFN, tiers=('quick', 'thorough') if hk <= 1 else ('thorough',))
 
 # ------------------------------------------------------------------ edit steps (C06, C07, C08)
@@ -112,25 +113,25 @@ EDIT_OPS = {1: 'AddItemToArray', 2: 'AddItemToObject', 3: 'AddItemToObjectCS', 4
             17: 'ReplaceItemInObjectCaseSensitive', 18: 'queries', 19: 'setters', 20: 'AddKindToObject'}
 for op, name in EDIT_OPS.items():
     for K in (2, 3, 4):
-        QM(('C06', 'C07', 'C08'), 'edit.%s.K%d' % (name, K), 'harness/edit.c', defs=['-DOP=%d' % op, '-DK=%d' % K], unwind=K + 3,
+        QM(('C06', 'C07', 'C08') + (('C20',) if K == 2 else ()), 'edit.%s.K%d' % (name, K), 'harness/edit.c', defs=['-DOP=%d' % op, '-DK=%d' % K], unwind=K + 3,
            unwindset=ML(K + 4, 60) + ['cJSON_Delete:2', 'cJSON_Delete.0:3', 'vf_build_rec:3', 'vf_memcpy.0:66', 'strlen.0:6', 'strcmp.0:6', 'strcpy.0:6', 'memcmp.0:4', 'check_list.0:%d' % (K + 3)],
-           tiers=('quick', 'thorough') if K == 3 else ('thorough',), cost=K * 5, functions=['cJSON_' + name if op < 18 else name, 'add_item_to_array', 'add_item_to_object', 'create_reference', 'get_array_item', 'get_object_item', 'cJSON_Delete', 'cJSON_strdup'])
+           tiers=('quick', 'thorough') if K in (2, 3) else ('thorough',), cost=K * 5, functions=['cJSON_' + name if op < 18 else name, 'add_item_to_array', 'add_item_to_object', 'create_reference', 'get_array_item', 'get_object_item', 'cJSON_Delete', 'cJSON_strdup'])
 CRFN = ['cJSON_CreateNull', 'cJSON_CreateTrue', 'cJSON_CreateFalse', 'cJSON_CreateBool', 'cJSON_CreateNumber', 'cJSON_CreateString', 'cJSON_CreateRaw', 'cJSON_CreateArray', 'cJSON_CreateObject',
         'cJSON_CreateStringReference', 'cJSON_CreateObjectReference', 'cJSON_CreateArrayReference', 'cJSON_New_Item', 'cJSON_strdup', 'cJSON_Delete']
-QM(('C06', 'C07', 'C08'), 'create.single', 'harness/create.c', defs=['-DCNT=1'], unwind=5, unwindset=ML(6, 70) + ['cJSON_Delete:1', 'cJSON_Delete.0:2', 'vf_memcpy.0:66', 'strlen.0:6', 'strcmp.0:6'], cost=5, functions=CRFN)
+QM(('C06', 'C07', 'C08', 'C20'), 'create.single', 'harness/create.c', defs=['-DCNT=1'], unwind=5, unwindset=ML(6, 70) + ['cJSON_Delete:1', 'cJSON_Delete.0:2', 'vf_memcpy.0:66', 'strlen.0:6', 'strcmp.0:6'], cost=5, functions=CRFN)
 for w, nm in ((12, 'IntArray'), (13, 'FloatArray'), (14, 'DoubleArray'), (15, 'StringArray')):
     for cnt in (2, 3, 4):
         QM(('C06', 'C07', 'C08'), 'create.%s.CNT%d' % (nm, cnt), 'harness/create.c', defs=['-DCNT=%d' % cnt, '-DWHICH=%d' % w], unwind=cnt + 3,
            unwindset=ML(cnt + 4, 70) + ['cJSON_Delete:1', 'cJSON_Delete.0:%d' % (cnt + 2), 'vf_memcpy.0:66', 'strlen.0:6', 'strcmp.0:6'], cost=cnt * 6,
            tiers=('quick', 'thorough') if cnt == (2 if w == 15 else 3) else ('thorough',), timeout=1200, functions=['cJSON_Create' + nm, 'cJSON_CreateNumber', 'cJSON_CreateString', 'cJSON_CreateArray', 'suffix_object', 'cJSON_Delete'])
 for td, tk in ((1, 2), (1, 3), (2, 2), (2, 3)):
-    QM(('C07', 'C01'), 'delete.D%dK%d' % (td, tk), 'harness/delete.c', defs=['-DTD=%d' % td, '-DTK=%d' % tk], unwind=tk + 2,
+    QM(('C07', 'C01') + (('C20',) if (td, tk) == (1, 2) else ()), 'delete.D%dK%d' % (td, tk), 'harness/delete.c', defs=['-DTD=%d' % td, '-DTK=%d' % tk], unwind=tk + 2,
        unwindset=ML(tk * tk + tk + 3, 30) + ['cJSON_Delete:%d' % td, 'cJSON_Delete.0:%d' % (tk + 2), 'vf_build_rec:%d' % (td + 1), 'vf_release:%d' % (td + 1), 'kept_blocks:%d' % (td + 1), 'vf_tree_assume.0:%d' % (tk * tk + tk + 3), 'memcmp.0:3'],
        cost=td * tk * 8, tiers=('quick', 'thorough') if (td, tk) != (2, 3) else ('thorough',), functions=['cJSON_Delete'], timeout=1200)
 DUPFN = ['cJSON_Duplicate', 'cJSON_Duplicate_rec', 'cJSON_strdup', 'cJSON_New_Item', 'cJSON_Delete']
 for td, tk in ((1, 2), (1, 3)):
     nn = 1 + tk + (tk * tk if td == 2 else 0)
-    QM(('C11', 'C08', 'C07'), 'dup.D%dK%d' % (td, tk), 'harness/dup.c', defs=['-DTD=%d' % td, '-DTK=%d' % tk] + (['-DNODELETE'] if td == 2 else []), unwind=tk + 2,
+    QM(('C11', 'C08', 'C07') + (('C20',) if tk == 2 else ()), 'dup.D%dK%d' % (td, tk), 'harness/dup.c', defs=['-DTD=%d' % td, '-DTK=%d' % tk] + (['-DNODELETE'] if td == 2 else []), unwind=tk + 2,
        unwindset=ML(nn + 2, 30) + ['cJSON_Delete:%d' % td, 'cJSON_Delete.0:%d' % (tk + 2), 'cJSON_Duplicate_rec:%d' % (td + 1), 'check_copy:%d' % (td + 1), 'vf_build_rec:%d' % (td + 1), 'vf_tree_assume.0:%d' % (nn + 2), 'memcmp.0:66', 'vf_memcpy.0:66', 'strlen.0:4', 'strcmp.0:4'],
        cost=td * tk * 10, tiers=('quick', 'thorough') if (td, tk) != (2, 2) else ('quick', 'thorough'), functions=DUPFN, timeout=1500)
 for K in (2, 3, 4):
@@ -141,7 +142,7 @@ for K in (2, 3, 4):
 # ------------------------------------------------------------------ C12 compare
 for K in (2, 3):
     for ka, nm in ((8, 'number'), (32, 'array'), (64, 'object'), (-1, 'other')):
-        QM(('C12',), 'cmpunit.%s.K%d' % (nm, K), 'harness/compare_unit.c', defs=['-DK=%d' % K, '-DKA=%d' % ka], unwind=K + 3, stub=['cJSON_Compare'],
+        QM(('C12',) + (('C20',) if K == 2 and nm in ('other', 'array') else ()), 'cmpunit.%s.K%d' % (nm, K), 'harness/compare_unit.c', defs=['-DK=%d' % K, '-DKA=%d' % ka], unwind=K + 3, stub=['cJSON_Compare'],
            unwindset=ML(K + 3, 60) + ['memcmp.0:66', 'strcmp.0:5', 'keq.0:5'], cost=K * 10, tiers=('quick', 'thorough') if K == 2 else ('thorough',),
            functions=['cJSON_Compare', 'compare_double', 'get_object_item', 'case_insensitive_strcmp'], timeout=1500)
 
@@ -196,3 +197,6 @@ for K in (2, 3):
     QM(('C18', 'C19'), 'mergeunit.gen.K%d' % K, 'harness/merge_unit.c', defs=['-DMODE=1', '-DK=%d' % K], unwind=K + 2, link=['cJSON.c'], stub=['generate_merge_patch', 'compare_json'], stub_lib='cJSON_Utils.c',
        unwindset=ML(2 * K + 3, 120) + ['generate_merge_patch__real.0:%d' % (2 * K + 2), 'cJSON_Delete:1', 'cJSON_Delete.0:%d' % (K + 2), 'sort_list:%d' % (1 if K == 2 else 2), 'strcmp.0:3', 'strlen.0:3', 'vf_memcpy.0:66', 'count_members.0:%d' % (2 * K + 3), 'member.0:%d' % (2 * K + 3), 'check_wf16.0:%d' % (2 * K + 3), 'check_wf16.1:%d' % (2 * K + 3)],
        cost=40, tiers=('quick', 'thorough') if K == 2 else ('thorough',), functions=MERFN, timeout=1800, mem_gb=24)
+
+# ------------------------------------------------------------------ C14 hooks table
+QM(('C14',), 'hooks.table', 'harness/hooks.c', unwind=4, unwindset=ML(4, 30) + ['cJSON_Delete:1', 'cJSON_Delete.0:2', 'vf_memcpy.0:66', 'strlen.0:4'], cost=3, functions=['cJSON_InitHooks', 'cJSON_malloc', 'cJSON_free', 'cJSON_CreateString', 'cJSON_Delete'])
